@@ -141,6 +141,15 @@ func c13RunSync(tb drv.TB, rec *drv.Rec, sub string, c c13Case) {
 		case "offer":
 			s.SetDHCPv4IPOffer(hw(mac), c13IP(op.IP), packet.NameEntry{})
 			offer[mac] = c13IP(op.IP)
+		case "confirm": // the DHCP handler acknowledged this address: it replaces whatever was on offer (the station may already be online there)
+			if err := s.DHCPv4Update(hw(mac), c13IP(op.IP), packet.NameEntry{}); err != nil {
+				fail(step, "c13-dhcp-update-error", "DHCPv4Update returned %v", err)
+				return
+			}
+			for len(s.C) > 0 {
+				<-s.C
+			}
+			offer[mac] = c13IP(op.IP)
 		case "settle":
 			time.Sleep(2 * time.Millisecond)
 		case "rx":
@@ -275,9 +284,10 @@ func countStarts(c c13Case, w gen.World, mac ref.MAC) int {
 // ---- (b) real time
 
 type rtCall struct {
-	At int    `json:"at_ms"`
-	K  string `json:"k"` // start stop close
-	T  int    `json:"t"`
+	At  int    `json:"at_ms"`
+	K   string `json:"k"` // start stop close
+	T   int    `json:"t"`
+	Alt bool   `json:"alt,omitempty"` // start: under another address of the station's own (it moved while hunted / before being hunted again)
 }
 
 type rtScenario struct {
@@ -311,7 +321,11 @@ func c13RunScenarioRT(sc rtScenario, observe time.Duration) (problems []string, 
 		mac := w.Clients[c.T%4]
 		switch c.K {
 		case "start":
-			h.StartHunt(packet.Addr{MAC: hw(mac), IP: c13IP(c.T % 4)})
+			ip := c13IP(c.T % 4)
+			if c.Alt {
+				ip = netip.AddrFrom4([4]byte{192, 168, 0, byte(150 + c.T%4)})
+			}
+			h.StartHunt(packet.Addr{MAC: hw(mac), IP: ip})
 		case "stop":
 			h.StopHunt(packet.Addr{MAC: hw(mac), IP: c13IP(c.T % 4)})
 		case "close":
@@ -366,6 +380,7 @@ func c13RunScenarioRT(sc rtScenario, observe time.Duration) (problems []string, 
 	}
 	type restore struct{ at time.Duration }
 	restores := map[int][]time.Duration{}
+	forgedAt := map[int][]time.Duration{}
 	for _, f := range frames {
 		at := f.At.Sub(t0)
 		in, sig, msg := decodeSent(f.B, w.HostMAC, false)
@@ -381,10 +396,49 @@ func c13RunScenarioRT(sc rtScenario, observe time.Duration) (problems []string, 
 			if closedAt >= 0 && at > closedAt+time.Second {
 				problems = append(problems, fmt.Sprintf("c13-frame-after-close: forged ARP at %v, handler closed at %v", at, closedAt))
 			}
+			if known {
+				forgedAt[t] = append(forgedAt[t], at)
+			}
 			continue
 		}
 		if in.kind == "arp" && in.arp.SHA == w.RouterMAC && netip.AddrFrom4(in.arp.SPA) == w.RouterIP && known {
 			restores[t] = append(restores[t], at)
+		}
+	}
+	// "periodically while hunted": from the start of a hunt to its end (StopHunt, Close or the end of the observation)
+	// the target gets a forged packet at once and then at least every cycle (6 s; 3 s of slack for a busy machine)
+	const firstBy, cycleMax = 2 * time.Second, 9 * time.Second
+	for t, sps := range spans {
+		for _, sp := range sps {
+			from, to := sp.from+50*time.Millisecond, sp.to
+			if to > end {
+				to = end
+			}
+			if closedAt >= 0 && closedAt < to {
+				to = closedAt
+			}
+			if to-from < firstBy {
+				continue
+			}
+			last := time.Duration(-1)
+			for _, at := range forgedAt[t] { // in transmission order
+				if at < from-100*time.Millisecond || at > to {
+					continue
+				}
+				if last < 0 && at-from > firstBy {
+					break
+				}
+				if last >= 0 && at-last > cycleMax {
+					problems = append(problems, fmt.Sprintf("c13-hunt-lapsed: target %d hunted from %v to %v got no forged ARP between %v and %v", t, from, to, last, at))
+				}
+				last = at
+			}
+			switch {
+			case last < 0:
+				problems = append(problems, fmt.Sprintf("c13-hunt-never-started: target %d hunted from %v to %v got no forged ARP within %v of StartHunt (forged at %v)", t, from, to, firstBy, forgedAt[t]))
+			case to-last > cycleMax:
+				problems = append(problems, fmt.Sprintf("c13-hunt-lapsed: target %d hunted from %v to %v got its last forged ARP at %v", t, from, to, last))
+			}
 		}
 	}
 	// after every completed StopHunt: a restoring ARP within one cycle, unless the handler was closed or the target re-hunted meanwhile
@@ -471,7 +525,7 @@ func genRTBatch(t *rapid.T, nmin, nmax int, withClose bool) rtBatch {
 		ntargets := rapid.IntRange(1, 3).Draw(t, "ntargets")
 		for k := rapid.IntRange(2, 8).Draw(t, "ncalls"); k > 0; k-- {
 			kind := rapid.SampledFrom([]string{"start", "start", "stop", "stop"}).Draw(t, "k")
-			sc.Calls = append(sc.Calls, rtCall{At: rapid.IntRange(0, 8000).Draw(t, "at"), K: kind, T: rapid.IntRange(0, ntargets-1).Draw(t, "t")})
+			sc.Calls = append(sc.Calls, rtCall{At: rapid.IntRange(0, 8000).Draw(t, "at"), K: kind, T: rapid.IntRange(0, ntargets-1).Draw(t, "t"), Alt: kind == "start" && rapid.IntRange(0, 2).Draw(t, "alt") == 0})
 		}
 		if withClose && rapid.IntRange(0, 3).Draw(t, "close") == 0 {
 			sc.Calls = append(sc.Calls, rtCall{At: rapid.IntRange(0, 9000).Draw(t, "closeAt"), K: "close"})
@@ -486,7 +540,7 @@ func TestC13(t *testing.T) {
 	drv.Prop(t, rec, "sync", 600, 15000, func(t *rapid.T) c13Case {
 		var c c13Case
 		for i := rapid.IntRange(3, 30).Draw(t, "nops"); i > 0; i-- {
-			op := c13Op{K: rapid.SampledFrom([]string{"start", "start", "stop", "offer", "rx", "rx", "rx", "rx", "settle"}).Draw(t, "k"), T: rapid.IntRange(0, 3).Draw(t, "t")}
+			op := c13Op{K: rapid.SampledFrom([]string{"start", "start", "stop", "offer", "confirm", "rx", "rx", "rx", "rx", "rx", "settle"}).Draw(t, "k"), T: rapid.IntRange(0, 3).Draw(t, "t")}
 			switch op.K {
 			case "start":
 				if rapid.IntRange(0, 2).Draw(t, "altIP") == 0 {
@@ -494,6 +548,8 @@ func TestC13(t *testing.T) {
 				}
 			case "offer":
 				op.IP = rapid.SampledFrom([]int{0, 1, 2, 3, 6}).Draw(t, "ip")
+			case "confirm":
+				op.IP = rapid.SampledFrom([]int{op.T, op.T, 0, 1, 2, 3, 6}).Draw(t, "ip")
 			case "rx":
 				op.Kind = rapid.SampledFrom([]string{"req-router", "req-router", "req-other", "probe", "probe", "announce", "reply", "linklocal", "badhtype"}).Draw(t, "kind")
 				op.IP = rapid.IntRange(0, 10).Draw(t, "ip")
